@@ -120,6 +120,10 @@ Handle(e) ==
     [] e.ev = "send"      -> Upd(e.c, OnSend(conn[e.c], e.upto, e.complete))
     [] e.ev = "halfclose" -> Upd(e.c, OnEos(conn[e.c], "half"))
     [] e.ev = "fullclose" -> Upd(e.c, OnEos(conn[e.c], "full"))
+    [] e.ev = "stop"      -> /\ conn' = [c \in DOMAIN conn |-> IF conn[c].opened /\ ~conn[c].closed      \* the application calls Stop: the server
+                                                         THEN OnEos(conn[c], "stop") ELSE conn[c]]       \* may (and must) close every connection
+                             /\ UNCHANGED <<cfg, store, conf>>
+    [] e.ev = "note"      -> UNCHANGED <<conn, cfg, store, conf>>
     [] e.ev = "wfail"     -> UNCHANGED <<conn, cfg, store, conf>>
     [] e.ev = "register"  -> /\ cfg' = [cfg EXCEPT !.custom = @ \cup {e.name},          \* the application registers (or replaces) an executor at run time
                                               !.tags = [n \in (DOMAIN @) \cup {e.name} |-> IF n = e.name THEN e.tag ELSE @[n]]]
